@@ -212,7 +212,7 @@ def _pipelines():
 class C14(Check):
     ID = 'C14'
     LEVEL = 'exploration'
-    BUDGET = {'quick': 25, 'thorough': 240}
+    BUDGET = {'quick': 75, 'thorough': 240}
     RULE = ('case (a) = (list of 1..3 states each (data type in int/uint/float/bool/obj/mapper, default or None), index domain dense/sparse(0..9999)/'
             'descending/tiny/wide (sequential growth to several hundred live slots, beyond 256), access direct or through StoreManager->Store, history of 50..400 contract-respecting operations add_key / re-add / set / get / '
             'del_key / iterate / add_map / get_map / iterate_map with map keys that are equal-but-not-identical objects); after EVERY operation every live '
@@ -227,7 +227,7 @@ class C14(Check):
                          'store.add_map', 'store.get_map', 'store.iterate_map', 'slot_rereads']
 
     def generate(self, rng, tier, shard, nshards):
-        n = 800 if tier == 'quick' else 10 ** 7
+        n = 650 if tier == 'quick' else 10 ** 7
         dts = list(DTYPES)
         doms = list(DOMAINS)
         pnames = sorted(_pipelines())
